@@ -23,6 +23,7 @@ ASSUMPTIONS = [
 ]
 ANCHOR_FILES = ("src/pydrobert/speech/pre.py", "src/pydrobert/speech/torch.py")
 EXHAUSTIVE_PARTS = []
+SUITE_TESTS = ['tests/test_pre.py', 'tests/test_command_line.py']  # the repository's own tests as an extra monitored workload (thorough tier)
 LEVEL_TEXT = (
     "Every Preemphasize.apply call of the workload (thousands of length/dtype/coeff/in_place combinations, read-only inputs) is compared "
     "with an explicit y[i]=x[i]-c*x[i-1] loop in float64 and cast; Dither is checked through seed-based identities that do not depend on how "
@@ -317,6 +318,10 @@ def plan(tier, seed):
 
 
 def run_shard(spec, rec):
+    if "suite" in spec:
+        from .. import suite
+
+        return suite.run(__name__.rsplit(".", 1)[-1], spec, rec)
     mon = Mon(rec)
     mon.attach()
     for case in spec["cases"]:
